@@ -272,6 +272,10 @@ func replayFile(path string, s *session) error {
 		if f[0] == "assert" {
 			continue
 		}
+		if f[0] == "bn" || f[0] == "fn" {
+			replayNodeLine(f, s.tr)
+			continue
+		}
 		if f[0] == "check15" {
 			s.check15 = f[1] == "on"
 			continue
